@@ -198,7 +198,7 @@ func short(s string) string {
 func TestC12(t *testing.T) {
 	env := kit.GetEnv()
 	rep := kit.NewReport("C12", env)
-	rep.Rule = "every label vector over size-class representatives for hop counts 2..N (full cross product of forward and return labels), plus hop counts up to 131 with every uniform and single-odd-one-out class pattern; a case is non-trivial when forward and return labels are not all in one size class or the path is at/over the 255-byte limit; distinct = distinct (hops, label vector)"
+	rep.Rule = "every label vector over size-class representatives for hop counts 2..N (full cross product of forward and return labels), plus hop counts up to 131 with every uniform, single-odd-one-out and two-segment class pattern, plus every label value 1..65535 at every position of 3-hop paths; a case is non-trivial when forward and return labels are not all in one size class or the path is at/over the 255-byte limit; distinct = distinct (hops, label vector)"
 	rep.Assumptions = []string{
 		"labels inside a size class behave like the class representatives {1,127 | 128,16383 | 16384,65535}",
 		"label 0 only at the mandatory positions (a zero forward label in the middle is not a valid path)",
@@ -313,6 +313,64 @@ func TestC12(t *testing.T) {
 			}
 		}
 	}
+
+	// (3) two-segment patterns: forward labels switch class at a split point,
+	// return labels switch class at the same point (covers paths whose
+	// mid-route block is larger than both the forward and the return block).
+	for n := 7; n <= 131; n++ {
+		if !env.Mine(n + 3) {
+			continue
+		}
+		step := 1
+		if !env.Thorough() && n > 40 {
+			step = 3
+		}
+		for split := 1; split < n-1; split += step {
+			for _, f1 := range classes {
+				for _, f2 := range classes {
+					for _, r1 := range classes {
+						for _, r2 := range classes {
+							if f1 == f2 && r1 == r2 {
+								continue
+							}
+							fwd := make([]int, n-1)
+							ret := make([]int, n)
+							for i := range fwd {
+								if i < split {
+									fwd[i], ret[i+1] = f1, r1
+								} else {
+									fwd[i], ret[i+1] = f2, r2
+								}
+							}
+							run(fwd, ret, true)
+						}
+					}
+				}
+			}
+		}
+	}
+	rep.Bounds["two_segment_patterns_up_to_hops"] = 131
+
+	// (4) single-label sweep: every label value 1..65535 at every position of
+	// 3-hop paths, the other labels at class representatives.
+	for pos := 0; pos < 4; pos++ {
+		for _, other := range small {
+			for v := 1; v <= 65535; v++ {
+				if !env.Mine(v) {
+					continue
+				}
+				fwd := []int{other, other}
+				ret := []int{0, other, other}
+				if pos < 2 {
+					fwd[pos] = v
+				} else {
+					ret[pos-1] = v
+				}
+				run(fwd, ret, encSize(v) != encSize(other))
+			}
+		}
+	}
+	rep.Bounds["single_label_sweep"] = "all 65535 values x 4 positions x 3 contexts on 3-hop paths"
 
 	rep.Add(evals, nontrivial, 0, 0)
 	if err := rep.Finish(env); err != nil {
